@@ -34,6 +34,10 @@ FIRST_TRY = {
     "C11_1": "caught (C11.K2)", "C11_2": "caught (C11.K1)", "C12_1": "caught (C12.M1)", "C12_2": "caught (C12.M4)",
     "C13_1": "caught (C13.V1)", "C13_2": "caught (C13.V2)", "C14_1": "caught (C14.W6)", "C14_2": "caught (C14.W5)",
     "C17_1": "caught (C17.Z3)", "C17_2": "caught (C17.Z5)", "C18_1": "caught (C18.H1)",
+    "C15_1": "caught (C15.N4)", "C15_2": "caught (C15.N3)", "C20_2": "caught (C20.Y4)",
+    "C20_1": "missed -> added the 'only an empty path is skipped' clause to C20.Y3",
+    "C16_1": "missed (a cached index table; borderline: needs a member to change after first use) -> C16.Q2 requires the lengths tables to be plain properties",
+    "C16_2": "caught (C16.Q2)",
     "C18_2": "missed -> added the identity-serialization clause for the option dictionaries to C18.H1",
 }
 
